@@ -65,6 +65,7 @@ type Contract struct {
 	MayPanic bool
 	Defs     []MacroDef
 	NoEscape bool // a panic may be raised and recovered inside, but must not escape
+	PanicsOnlyIf []Clause
 }
 
 func LoadWorld(repo string) (*World, error) {
@@ -293,6 +294,9 @@ func (w *World) parseContractFile(path string) error {
 				cur.Defs = append(cur.Defs, MacroDef{Name: strings.TrimSpace(rest[:j]), Param: strings.TrimSpace(rest[j+1 : k]), Body: strings.TrimSpace(rest[i+2:])})
 			case "pure":
 				cur.Pure = true
+			case "panics-only-if":
+				// every path on which the function panics satisfies the condition (over the entry state)
+				cur.PanicsOnlyIf = append(cur.PanicsOnlyIf, Clause{label, rest})
 			case "panics":
 				cur.MayPanic = true
 			case "inline":
